@@ -435,7 +435,9 @@ func main() {
 		{{def("h264")}, {def("opus"), def("g711")}},
 		{{def("h265")}, {def("mpeg4audio")}, {def("klv"), def("generic")}},
 	}
-	idStyles := [][]string{nil, {"1", "2", "3"}, {"video0", "a1", "Zz9"}, {"1", "", "3"}}
+	// ids that are different strings but equal under a careless comparison: case only, prefix of one
+	// another, numerically equal
+	idStyles := [][]string{nil, {"1", "2", "3"}, {"video0", "a1", "Zz9"}, {"1", "", "3"}, {"v", "V", "v1"}, {"a", "ab", "abc"}, {"1", "01", "001"}}
 	for _, shape := range shapes {
 		n := len(shape)
 		for _, title := range []string{"", "x", "with spaces", " "} {
